@@ -159,6 +159,32 @@ inline std::string checkItemAccessors(const libcellml::AnyCellmlElementPtr &item
     return "";
 }
 
+// The items that hold their objects weakly (VariablePair -> two variables, UnitsItem -> units + index) must name live objects
+// right after the call that produced the issue, while the caller still holds the model: a CONNECTION / MAP_VARIABLES item whose
+// pair has a null variable, or a UNIT item that is not valid, names no element at all ("stored object matches its stated type").
+// Callers must keep the model the service worked on alive while they judge the logger.
+inline std::string checkItemValid(const libcellml::AnyCellmlElementPtr &item)
+{
+    using T = libcellml::CellmlElementType;
+    if (item == nullptr) {
+        return "";
+    }
+    if (item->type() == T::CONNECTION || item->type() == T::MAP_VARIABLES) {
+        auto pair = item->variablePair();
+        if (pair != nullptr && (pair->variable1() == nullptr || pair->variable2() == nullptr)) {
+            return "item of type " + typeName(item->type()) + " holds a VariablePair with " + (pair->variable1() == nullptr ? std::string("no variable1") : std::string("a variable1")) + " and "
+                   + (pair->variable2() == nullptr ? "no variable2" : "a variable2") + " (isValid() = " + (pair->isValid() ? "true" : "false") + ")";
+        }
+    }
+    if (item->type() == T::UNIT) {
+        auto ui = item->unitsItem();
+        if (ui != nullptr && !ui->isValid()) {
+            return std::string("item of type UNIT holds a UnitsItem that is not valid (units ") + (ui->units() == nullptr ? "gone" : "alive") + ", index " + std::to_string(ui->index()) + ")";
+        }
+    }
+    return "";
+}
+
 // ---- the stricter half of the logger oracle ----
 // Returns "" or "<oracle>|<detail>|<text>". Never throws: exceptions of the accessors are part of the verdict.
 inline std::string strictLogger(const libcellml::LoggerPtr &lg)
@@ -220,6 +246,10 @@ inline std::string strictLogger(const libcellml::LoggerPtr &lg)
             std::string it = checkItemAccessors(is->item());
             if (!it.empty()) {
                 return "item-accessors|" + (is->item() != nullptr ? typeName(is->item()->type()) : std::string("null")) + "|issue(" + std::to_string(i) + "): " + it + ": " + is->description();
+            }
+            it = checkItemValid(is->item());
+            if (!it.empty()) {
+                return "item-invalid|" + typeName(is->item()->type()) + "|issue(" + std::to_string(i) + ") [" + ruleName(is->referenceRule()) + "]: " + it + ": " + is->description();
             }
         }
     } catch (const std::exception &e) {
